@@ -33,6 +33,7 @@ pub fn prop() -> Prop {
             "thick triangles and polylines above 300 px are drawn with stroke widths <= 20 to bound the cost of a case",
         ],
         subs: vec![
+            Sub::enumerate("instrument_selftest", instrument_selftest).with_fp(),
             Sub::tape("primitives", 40, 12_000, 600_000, |d, cx| primitives(d, cx, false)).with_fp(),
             Sub::tape("triangles_polylines", 40, 1_500, 75_000, |d, cx| primitives(d, cx, true)),
             Sub::tape("text", 90, 20_000, 1_000_000, text),
@@ -690,4 +691,33 @@ fn geometry_queries(d: &mut Dec, cx: &mut Cx) -> Res {
         })
     });
     judge("geometry", "constructors and queries", r)
+}
+
+
+/// The instruments must work in this very build: the allocation counter sees an allocation, the
+/// build panics on arithmetic overflow (also inside the dependency) and on failed debug assertions.
+/// A failure here is a defect of the harness (reported as inconclusive), not of the library.
+fn instrument_selftest(ex: &Ex) {
+    let (_, n_alloc) = counted(|| {
+        let v: Vec<u8> = Vec::with_capacity(std::hint::black_box(64));
+        std::hint::black_box(v.capacity())
+    });
+    let (_, n_none) = counted(|| std::hint::black_box(3u32) + 4);
+    if n_alloc == 0 || n_none != 0 {
+        ex.fail(0, "harness_panic:allocation_counter", format!("the counting allocator reports {} allocations for a Vec and {} for an addition", n_alloc, n_none), "self-test");
+    }
+    let overflow = catch(|| std::hint::black_box(i32::MAX) + std::hint::black_box(1));
+    if overflow.is_ok() {
+        ex.fail(1, "harness_panic:overflow_checks_off", "i32::MAX + 1 did not panic: the harness is built without overflow checks", "self-test");
+    }
+    // the same inside the library: Point addition uses plain `+` on i32
+    let lib_overflow = catch(|| Point::new(std::hint::black_box(i32::MAX), 0) + Point::new(std::hint::black_box(1), 0));
+    if lib_overflow.is_ok() {
+        ex.fail(2, "harness_panic:overflow_checks_off_in_dependency", "Point::new(i32::MAX, 0) + Point::new(1, 0) did not panic: embedded-graphics is built without overflow checks", "self-test");
+    }
+    if !cfg!(debug_assertions) {
+        ex.fail(3, "harness_panic:debug_assertions_off", "debug assertions are off", "self-test");
+    }
+    ex.add(4, 4);
+    ex.sample(|| "allocation counter sees Vec::with_capacity and stays 0 for arithmetic; i32 overflow panics in the harness and inside embedded-graphics; debug assertions on".to_string());
 }
